@@ -72,6 +72,17 @@ def gen_cases(rng, tier):
                     cases.append({'id': 'c05-alias-%d-%s' % (j, role), 'cfg': th_cfg(nm, 0, H, False, shape=variant), 'hist': toks, 'sub': 'lsim',
                                   'alias_pair': 'c05-alias-%d' % j, 'role': role, 'tags': {'variant': variant, 'H': H, 'spelling': role}})
                 j += 1
+    # two tap-hold keys, the second tapped twice while the first is still pending (all four of its events wait in the queue): each of
+    # its presses is judged against its own release
+    dj = 0
+    for conc in (False, True):
+        for HA, HB in ((300, 100), (200, 60), (100, 100)):
+            for g1, g2, g3 in ((40, 30, 40), (HB - 10, 5, HB - 10), (10, HB, 10), (HB // 2, HB // 2, HB // 2)):
+                cfg = '(defcfg %s)\n(defsrc a s d)\n(deflayer l0 (tap-hold 0 %d x lsft) (tap-hold 0 %d y lctl) 2)' % (
+                    'concurrent-tap-hold yes' if conc else '', HA, HB)
+                toks = ['p0,30', 't10', 'p0,31', 't%d' % g1, 'r0,31', 't%d' % g2, 'p0,31', 't%d' % g3, 'r0,31', 't%d' % (HA + 50), 'r0,30', 't%d' % (HA + 60)]
+                cases.append({'id': 'c05-dbl-%d' % dj, 'cfg': cfg, 'hist': toks, 'sub': 'lsim', 'tags': {'shape': 'double-tap-while-pending', 'conc': conc}})
+                dj += 1
     # random configs of the profile incl. two tap-hold keys interleaved
     cases += lsim_cases(rng, 'c05', 100 if tier == 'quick' else 3000, 3, tag='c05-rand')
     return cases
